@@ -23,7 +23,7 @@ func ToCoca(m *modelgen.Model) []core_domain.CodeDataStruct {
 	for _, c := range m.Classes {
 		ds := core_domain.CodeDataStruct{NodeName: c.Name, Package: c.Pkg, Type: c.Kind, Extend: c.Extend, FilePath: c.Pkg + "/" + c.Name + ".java"}
 		for _, me := range c.Methods {
-			fn := core_domain.CodeFunction{Name: me.Name, ReturnType: "void"}
+			fn := core_domain.CodeFunction{Name: me.Name, ReturnType: "void", IsConstructor: me.IsCtor}
 			for _, call := range me.Calls {
 				fn.FunctionCalls = append(fn.FunctionCalls, core_domain.CodeCall{Package: call.Pkg, NodeName: call.Class, FunctionName: call.Name,
 					Position: core_domain.CodePosition{StartLine: call.Line, StopLine: call.Line}})
